@@ -4,6 +4,8 @@
 // lookup and cose.ParseEnvelope run for real; go-cose's Sign1Message.UnmarshalCBOR gives an error or an arbitrary message
 // object (the model of the C07/C01 harnesses, arbitrary unprotected bucket, payload possibly nil). No path may panic.
 //verif:pkg signature/cose
+// for the bounded inputs of these harnesses no loop of the code under test runs anywhere near 300 iterations: more is a hang
+//verif:terminates github.com/notaryproject/notation-core-go/ 300
 //verif:include ../C07/cose_env.go
 //verif:include ../C07/cose_content.go
 //verif:harness H_C09_cose_parse
